@@ -18,6 +18,20 @@ const (
 		"                                                                " // 256 wide should be enough
 )
 
+// newlineIndent appends a newline followed by left spaces. The indentation is
+// not limited by the width of the indent constant.
+func newlineIndent(b []byte, left int) []byte {
+	if left < 0 {
+		left = 0
+	}
+	b = append(b, '\n')
+	for len(indent)-1 < left {
+		b = append(b, indent[1:]...)
+		left -= len(indent) - 1
+	}
+	return append(b, indent[1:left+1]...)
+}
+
 // This interface is needed since importing flavors causes an undetectable
 // import loop.
 type hasDefMethodList interface {
